@@ -58,8 +58,8 @@ template <> struct ToStringBuf<const void*> {
   enum { kBytes = sizeof(const void*) * 2 + 2 };
 };
 
-// Maximum over this and float.
-enum { kToStringMaxBytes = 20 };
+// Maximum over this and float (ToStringBuf<double>::kBytes in float_to_string.hh).
+enum { kToStringMaxBytes = 26 };
 
 } // namespace util
 
